@@ -63,7 +63,7 @@ func init() {
 				switch kind {
 				case "Deployment", "StatefulSet":
 					x.image = pickS(r, c10Images)
-					ob["spec"] = Obj{"replicas": float64(1), "template": Obj{"spec": Obj{"containers": []interface{}{Obj{"name": "main", "image": x.image}, Obj{"name": "side", "image": "busybox"}}}}}
+					ob["spec"] = Obj{"replicas": float64(1), "template": Obj{"spec": Obj{"containers": []interface{}{Obj{"name": "main", "image": x.image}, Obj{"name": "side", "image": "busybox"}, Obj{"name": "xmain2", "image": "busybox:2"}}}}}
 				case "ConfigMap":
 					ob["data"] = Obj{"k": "v"}
 				case "MyKind":
@@ -76,6 +76,7 @@ func init() {
 				continue
 			}
 			var sb strings.Builder
+			sb.WriteString("apiVersion: v1\nkind: Secret\nmetadata:\n  name: src\nstringData:\n  v: COPIED\n---\n")
 			for i, x := range rs {
 				if i > 0 {
 					sb.WriteString("---\n")
@@ -84,7 +85,7 @@ func init() {
 				sb.Write(b)
 			}
 			k := Obj{"resources": []interface{}{"res.yaml"}}
-			mode := r.Intn(3)
+			mode := r.Intn(4)
 			var predict func(x *res, out Obj) (string, bool) // returns a description of the violation
 			var desc interface{}
 			switch mode {
@@ -179,6 +180,39 @@ func init() {
 					}
 					return "", true
 				}
+			case 3: // ---- replacement: copy a source value into the field of exactly the selected list element
+				selName := pick(r, []string{"main", "side", "mai"})
+				k["replacements"] = []interface{}{Obj{
+					"source": Obj{"kind": "Secret", "name": "src", "fieldPath": "stringData.v"},
+					"targets": []interface{}{Obj{"select": Obj{"kind": "Deployment"},
+						"fieldPaths": []interface{}{"spec.template.spec.containers.[name=" + selName + "].image"}}}}}
+				desc = map[string]interface{}{"mode": "replacement", "element": selName}
+				predict = func(x *res, out Obj) (string, bool) {
+					if x.kind != "Deployment" {
+						return "", true
+					}
+					conts, _ := getPath(map[string]interface{}(out), ipath(nil, "spec", "template", "spec", "containers"))
+					cl, _ := conts.([]interface{})
+					for _, c := range cl {
+						cm, _ := c.(map[string]interface{})
+						nm, _ := cm["name"].(string)
+						orig := "busybox"
+						if nm == "main" {
+							orig = x.image
+						}
+						if nm == "xmain2" {
+							orig = "busybox:2"
+						}
+						want := orig
+						if nm == selName {
+							want = "COPIED"
+						}
+						if cm["image"] != want {
+							return fmt.Sprintf("replacement into [name=%s]: container %q image is %v, exact selection prescribes %q", selName, nm, cm["image"], want), false
+						}
+					}
+					return "", true
+				}
 			default: // ---- replicas
 				nm := pickS(r, c10Names)
 				cnt := float64(2 + r.Intn(5))
@@ -224,7 +258,27 @@ func init() {
 					continue
 				}
 				if what, ok := predict(x, ds[0]); !ok {
-					cls := []string{"patch-target-selection", "image-selection", "replicas-selection"}[mode]
+					cls := []string{"patch-target-selection", "image-selection", "replicas-selection", "replacement-selection"}[mode]
+					if mode == 3 {
+						// recogniser of finding 5: the [name=v] value is used as an UNANCHORED regular expression, so
+						// an element whose name merely CONTAINS v is selected as well
+						sel := desc.(map[string]interface{})["element"].(string)
+						conts, _ := getPath(map[string]interface{}(ds[0]), ipath(nil, "spec", "template", "spec", "containers"))
+						onlySubstringHits := true
+						for _, c := range conts.([]interface{}) {
+							cm := c.(map[string]interface{})
+							nm, _ := cm["name"].(string)
+							if cm["image"] == "COPIED" && !strings.Contains(nm, sel) {
+								onlySubstringHits = false
+							}
+							if cm["image"] != "COPIED" && nm == sel {
+								onlySubstringHits = false
+							}
+						}
+						if onlySubstringHits {
+							cls = "replacement-element-selector-unanchored"
+						}
+					}
 					// recognisers of the known findings
 					if mode == 1 {
 						e := desc.(map[string]interface{})["entry"].(Obj)
